@@ -304,6 +304,45 @@ def r16_5(ctx, J):
     ctx.end()
 
 
+def r16_7(ctx, J):
+    """'re-simulates to the same result ... every simulation-relevant parameter ... is part of the saved format': the reader hands
+    every saved value to the constructor; the value arrives only if the constructor (through its base-class constructors) puts it
+    somewhere on the object.  For every parameter the readers pass, a marker value given for it must show up in some attribute
+    after construction -- a subclass constructor that accepts a parameter but does not forward it silently restores the default."""
+    ctx.begin("R16.7", "every constructor parameter the JSON readers pass reaches an attribute of the constructed object", floor=60)
+    from ..interp import State, Frame
+    for cn, params in sorted(J.read.items()):
+        init = ctx.repo.lookup_method(cn, "__init__")
+        if init is None:
+            continue
+        for pname in sorted(params):
+            if pname not in init.params:
+                continue
+            I = mk_interp(ctx, inline=lambda call, callee, depth: callee.name == "__init__", max_depth=4, max_paths=4000)
+            bind = {q: Const(None) for q in init.params if q not in ("self", pname)}
+            for q, d in init.defaults.items():
+                if q in bind and isinstance(d, ast.Constant):
+                    bind[q] = Const(d.value) if not isinstance(d.value, (int, float)) or isinstance(d.value, bool) else Poly.const(d.value)
+            bind[pname] = Const("MARK:" + pname)   # a value that is not None, not a number and not empty: every `is not None` / default test is decided
+            try:
+                outs = I.run_function(init, bind=bind)
+            except AnalysisError as e:
+                raise AnalysisError(f"R16.7: {cn}.__init__ with only `{pname}` given could not be interpreted: {e}")
+            reached, npaths = False, 0
+            for st, ex in outs:
+                if ex is not None and ex[0] == "raise":
+                    continue
+                npaths += 1
+                if any(k[0] == "self" and ("MARK:" + pname) in repr(v) for k, v in st.heap.items()) or \
+                        any(isinstance(e, Store) and isinstance(e.recv, Obj) and e.recv.name == "self" and ("MARK:" + pname) in repr(e.value) for e in flatten(st.trace)):
+                    reached = True
+            ctx.instance(f"{cn}:ctor-param:{pname}", sample={"paths": npaths, "reaches_an_attribute": reached})
+            if npaths and not reached:
+                ctx.violation(f"{cn}:ctor-drops:{pname}", init.loc(), f"{cn}.__init__ accepts `{pname}` (the JSON reader passes the saved value for it) but no attribute of the new object "
+                              f"depends on it: the saved value is dropped on load and the object falls back to the default")
+    ctx.end()
+
+
 def r16_6(ctx):
     """'writing never fails for a constructible model' / 'equals the original file value-for-value': the writer serialises with
     options under which every str, float and nesting the model can hold is writable in the file's encoding (the json defaults:
@@ -358,3 +397,9 @@ def run(ctx):
     r16_3(ctx, J)
     r16_4(ctx, J)
     r16_5(ctx, J)
+    r16_7(ctx, J)
+    # "at any stage (... finished backward)": a backward run must hand back a model without helper tasks and with restored links,
+    # otherwise the file holds IDs of tasks that are not saved (C17's restoration and helper rules)
+    from .C17 import r17_1, r17_3
+    r17_1(ctx)
+    r17_3(ctx)
